@@ -28,7 +28,7 @@ def run(pid, tier, seed):
     for k in range(3 if q else 8):
         tp = os.path.join(tdir, "%s-%s-make-%d-%d.ndjson" % (pid, tier, seed, k))
         vlib.record_trace(mk, ["record", "--seed", seed * 50 + k, "--runs", 1, "--len", 220 if q else 600, "--stable", 1,
-                               "--noise", [3, 30, 0][k % 3]], tp, timeout=1800)
+                               "--noise", [3, 30, 0][k % 3]], tp, timeout=240 if q else 900)
         jobs.append(("IprMakeTrace", tp, (), lambda ev: ev.get("op") == "reset", None))
     if not q:
         mka = vlib.build_harness("make", ["make.cxx"], cfg="asan")
